@@ -688,7 +688,9 @@ func (a *Act) run(st0 *State) (*State, []Val) {
 				rets = append(rets, retInfo{st, vs})
 				terminated = true
 			case *ssa.Panic:
-				a.oblige(st, "panic", "", x.Pos(), "explicit panic reachable", "false")
+				if !(a.depth == 0 && a.fc != nil && a.fc.MayPanic) {
+					a.oblige(st, "panic", "", x.Pos(), "explicit panic reachable", "false")
+				}
 				terminated = true
 			default:
 				a.instr(st, ins)
